@@ -41,13 +41,13 @@ Proof. exact body_calls_spec. Qed.
    decides what happens to the INSTANCE (kept, helper clone cached, or consumed and verified
    when the call returns) -- [step] for BCallD, one definition for all kinds *)
 Theorem C15_receivers_share_the_evaluation : forall w x i m a it,
-  live_inst w i = Some it ->
+  live_inst w i = Some it -> i_calls it = [] ->
   w_state (fst (step w {| ev_ctx := x; ev_base := BCallD i m a |})) =
   fst (fst (eval_act 12 (w_cfg w) (w_armed w)
              (fst (call hinfo N haccepts hdebug (w_cfg w) (w_state w) (d_alias m) a)) (d_alias m) a (a + 1)
              (snd (call hinfo N haccepts hdebug (w_cfg w) (w_state w) (d_alias m) a)))).
 Proof.
-  intros w x i m a it Hl. unfold step. cbn [ev_base ev_ctx]. rewrite Hl.
+  intros w x i m a it Hl Hnc. unfold step, step_core, releasing. cbn [ev_base ev_ctx]. rewrite Hl, Hnc.
   destruct (call hinfo N haccepts hdebug (w_cfg w) (w_state w) (d_alias m) a) as [s1 act]. cbn [fst snd].
   destruct (eval_act 12 (w_cfg w) (w_armed w) s1 (d_alias m) a (a + 1) act) as [[s2 ar2] r]. cbn [fst].
   destruct (recv_of m); try (destruct act; reflexivity); try reflexivity.
